@@ -307,31 +307,47 @@ def confirm(c, outs):
         if text is None: return False, 'unit has no fixed spelling for a query'
         parts.append(f'({q.numerator}/{q.denominator}) {text}'.strip())
         expect.append((q, [tuple(e) for e in it['names']]))
-    if len(parts) != 1: return False, 'multi-result cases are not realised as one query'
     env2 = dict(os.environ); env2.update({'XDG_DATA_HOME': os.path.join(harness.CACHE_DIR, 'xdg-cli'), 'HOME': os.path.join(harness.CACHE_DIR, 'home'), 'NO_COLOR': '1'})
-    args = [exe] + (['--exact'] if case['exact'] else []) + [parts[0]]
+    # several results: one query of parenthesised expressions, `(1/0) ((3/2) m)`; a failing one prints a diagnostic (stderr), the
+    # others one line each on stdout, in order
+    def inner(p, e):
+        if e is None: return '(1/0)'
+        q, names = e; u = ul.spell_compound(names)
+        return f'({q.numerator}/{q.denominator} * 1 {u})' if u else f'({q.numerator}/{q.denominator})'
+    text = parts[0] if len(parts) == 1 else ' '.join(inner(p, e) for p, e in zip(parts, expect))
+    args = [exe] + (['--exact'] if case['exact'] else []) + [text]
     o = subprocess.run(args, env=env2, stdout=subprocess.PIPE, stderr=subprocess.PIPE, timeout=120)
-    line = o.stdout.decode(errors='replace').split('\n')[0]
-    if expect[0] is None: return False, 'error case'
-    q, names = expect[0]
-    # reference text, composed from the library's own unit suffixes (query op) and the documented layout
-    num = (f'{q.numerator}/{q.denominator}' if q.denominator != 1 else str(q.numerator)) if case['exact'] else None
-    lib = replay_client.run_cases([{'op': 'query', 'text': parts[0]}], profiles=['dev'])[0]['dev']
-    if case['exact'] and not line.startswith(num): return True, f'`any --exact {parts[0]!r}` printed {line!r}, the value is {num}'
-    rest = line[len(num):] if case['exact'] else line[re.match(r'^-?[\d.…e-]+', line).end():]
-    units_num = [e for e in names if e[1] > 0]; units_den = [e for e in names if e[1] < 0]
-    if bool(units_num) != rest.startswith(' '): return True, f'printed {line!r}: blank before the unit {"missing" if units_num else "although there is no numerator"}'
-    if len(units_den) >= 2 and rest.count('⋅') < len(units_den) - 1 + max(0, len(units_num) - 1): return True, f'printed {line!r}: separator between units missing'
-    okr = (lib.get('ok') or [{}])[0].get('ok')
-    if okr:
-        want_unit_singular = okr['unit_text']
-        if q == 1 and rest.strip() != want_unit_singular: return True, f'printed unit {rest.strip()!r}, library displays {want_unit_singular!r}'
-        if q != 1 and len(units_num) == 1 and rest.strip() == want_unit_singular:
-            # a unit with a distinct plural must be pluralised
-            pl = replay_client.run_cases([{'op': 'unit_display', 'unit': okr['unit']}], profiles=['dev'])[0]['dev'].get('ok', {})
-            if pl.get('plural') != pl.get('text'): return True, f'printed {line!r}: unit not pluralised although the value is not one (plural form {pl.get("plural")!r})'
-        if q != 1 and len(units_num) != 1 and rest.strip() != want_unit_singular: return True, f'printed unit {rest.strip()!r}, library displays {want_unit_singular!r}'
+    # diagnostics (codespan: `error: ..`, ` ┌─ `, ` │ `) are not result lines
+    lines = [l for l in o.stdout.decode(errors='replace').split('\n') if l.strip() and '│' not in l and '┌' not in l and not l.startswith(('error', 'warning', ' '))]
+    values = [(p if len(parts) == 1 else inner(p, e), e) for p, e in zip(parts, expect) if e is not None]
+    if len(values) == 0: return False, 'error case'
+    if len(lines) != len(values): return True, f'`any {text!r}` printed {len(lines)} result line(s) {lines} for {len(values)} value(s) (and {len(parts) - len(values)} failing expression(s))'
+    for line, (part, (q, names)) in zip(lines, values):
+        bad, why = check_line(case, line, part, q, names)
+        if bad: return True, why
     return False, 'binary output agrees'
+
+def check_line(case, line, part, q, names):
+    import replay_client
+    if True:
+        # reference text, composed from the library's own unit suffixes (query op) and the documented layout
+        num = (f'{q.numerator}/{q.denominator}' if q.denominator != 1 else str(q.numerator)) if case['exact'] else None
+        lib = replay_client.run_cases([{'op': 'query', 'text': part}], profiles=['dev'])[0]['dev']
+        if case['exact'] and not line.startswith(num): return True, f'`any --exact {part!r}` printed {line!r}, the value is {num}'
+        rest = line[len(num):] if case['exact'] else line[re.match(r'^-?[\d.…e-]+', line).end():]
+        units_num = [e for e in names if e[1] > 0]; units_den = [e for e in names if e[1] < 0]
+        if bool(units_num) != rest.startswith(' '): return True, f'printed {line!r}: blank before the unit {"missing" if units_num else "although there is no numerator"}'
+        if len(units_den) >= 2 and rest.count('⋅') < len(units_den) - 1 + max(0, len(units_num) - 1): return True, f'printed {line!r}: separator between units missing'
+        okr = (lib.get('ok') or [{}])[0].get('ok')
+        if okr:
+            want_unit_singular = okr['unit_text']
+            if q == 1 and rest.strip() != want_unit_singular: return True, f'printed unit {rest.strip()!r}, library displays {want_unit_singular!r}'
+            if q != 1 and len(units_num) == 1 and rest.strip() == want_unit_singular:
+                # a unit with a distinct plural must be pluralised
+                pl = replay_client.run_cases([{'op': 'unit_display', 'unit': okr['unit']}], profiles=['dev'])[0]['dev'].get('ok', {})
+                if pl.get('plural') != pl.get('text'): return True, f'printed {line!r}: unit not pluralised although the value is not one (plural form {pl.get("plural")!r})'
+            if q != 1 and len(units_num) != 1 and rest.strip() != want_unit_singular: return True, f'printed unit {rest.strip()!r}, library displays {want_unit_singular!r}'
+        return False, 'binary output agrees'
 
 def known_match(k, c): return True
 
